@@ -48,6 +48,7 @@ pub fn check_serde(r: &mut Recorder, input: &[u8], exp: &Value) {
                                 Ok(Ok(Value::String(vs))) if format!("\"{}\"", vs) == want => {}
                                 other => r.dis(&["C19"], "serde-to-value", json!({"expected": want, "observed": format!("{:?}", other)})),
                             }
+                            other_doors(r, &v, &want, text);
                         }
                         other => r.dis(&["C19"], "serde-serialise-failed", json!({"json": text, "observed": format!("{:?}", other)})),
                     }
@@ -57,6 +58,21 @@ pub fn check_serde(r: &mut Recorder, input: &[u8], exp: &Value) {
                 if exp_ok {
                     r.dis(&["C19"], "serde-rejects-well-formed", json!({"json": text, "expected": exp["val"]}));
                 }
+            }
+        }
+    }
+    // a reader-based deserializer hands the visitor owned / scratch strings instead of borrowed ones
+    r.stat("serde_from_reader");
+    match guard(|| serde_json::from_reader::<_, LanguageIdentifier>(texts[0].as_bytes())) {
+        Err(at) => r.dis(&["C01", "C19"], &format!("panic@{}", short_at(&at)), json!({"json": texts[0], "api": "from_reader", "panic": at})),
+        Ok(Ok(v)) => {
+            if !exp_ok || proj_li(&v) != exp["val"] {
+                r.dis(&["C19"], "serde-from-reader", json!({"json": texts[0], "expected": exp, "observed": proj_li(&v)}));
+            }
+        }
+        Ok(Err(_)) => {
+            if exp_ok {
+                r.dis(&["C19"], "serde-from-reader-rejects-well-formed", json!({"json": texts[0]}));
             }
         }
     }
@@ -73,6 +89,59 @@ pub fn check_serde(r: &mut Recorder, input: &[u8], exp: &Value) {
                 r.dis(&["C19"], "serde-from-value-rejects-well-formed", json!({"value": s}));
             }
         }
+    }
+}
+
+/// a sink that accepts `room` bytes and then fails
+struct FailingSink { room: usize }
+impl std::io::Write for FailingSink {
+    fn write(&mut self, buf: &[u8]) -> std::io::Result<usize> {
+        if self.room == 0 { return Err(std::io::Error::new(std::io::ErrorKind::Other, "disk full")); }
+        let n = buf.len().min(self.room);
+        self.room -= n;
+        Ok(n)
+    }
+    fn flush(&mut self) -> std::io::Result<()> { Ok(()) }
+}
+
+/// The same value through the other doors of serde: a serializer that FAILS half-way (an error, and nothing of it may
+/// leak into the next serialisation), the value as an element and as a map key, a reader-based deserializer (owned
+/// strings instead of borrowed ones), and the serialised form once more afterwards.
+fn other_doors(r: &mut Recorder, v: &LanguageIdentifier, want: &str, text: &str) {
+    use std::collections::BTreeMap;
+    r.stat("serde_other_doors");
+    for room in [0usize, 1, want.len() / 2] {
+        match guard(|| serde_json::to_writer(FailingSink { room }, v)) {
+            Err(at) => r.dis(&["C01", "C19"], &format!("panic@{}", short_at(&at)), json!({"json": text, "api": "to_writer(failing sink)", "panic": at})),
+            Ok(Ok(())) => r.dis(&["C19"], "serde-failing-sink-reports-success", json!({"json": text, "room": room})),
+            Ok(Err(_)) => {}
+        }
+        match guard(|| serde_json::to_string(v)) {
+            Ok(Ok(out)) if out == want => {}
+            other => r.dis(&["C19"], "serde-serialised-form-after-a-failed-serialisation", json!({"expected": want, "observed": format!("{:?}", other), "room": room})),
+        }
+    }
+    match guard(|| serde_json::to_vec(v).map(|x| String::from_utf8_lossy(&x).to_string())) {
+        Ok(Ok(out)) if out == want => {}
+        other => r.dis(&["C19"], "serde-to-vec", json!({"expected": want, "observed": format!("{:?}", other)})),
+    }
+    // element of a sequence, key and value of a map
+    let mut m: BTreeMap<LanguageIdentifier, LanguageIdentifier> = BTreeMap::new();
+    m.insert(v.clone(), v.clone());
+    let doc = (vec![v.clone(), v.clone()], m);
+    let want_doc = format!("[[{w},{w}],{{{w}:{w}}}]", w = want);
+    match guard(|| serde_json::to_string(&doc)) {
+        Ok(Ok(out)) if out == want_doc => {
+            match guard(|| serde_json::from_str::<(Vec<LanguageIdentifier>, BTreeMap<LanguageIdentifier, LanguageIdentifier>)>(&out)) {
+                Ok(Ok(back)) if back == doc => {}
+                other => r.dis(&["C19"], "serde-roundtrip-inside-a-document", json!({"json": out, "observed": format!("{:?}", other.map(|x| x.is_ok()))})),
+            }
+            match guard(|| serde_json::from_reader::<_, (Vec<LanguageIdentifier>, BTreeMap<LanguageIdentifier, LanguageIdentifier>)>(out.as_bytes())) {
+                Ok(Ok(back)) if back == doc => {}
+                other => r.dis(&["C19"], "serde-roundtrip-through-a-reader", json!({"json": out, "observed": format!("{:?}", other.map(|x| x.is_ok()))})),
+            }
+        }
+        other => r.dis(&["C19"], "serde-serialised-form-inside-a-document", json!({"expected": want_doc, "observed": format!("{:?}", other)})),
     }
 }
 
